@@ -88,6 +88,7 @@ let handle kind fs obs =
     Printf.sprintf "m=%s end=%s finds=%s X=%s" (String.concat "/" (List.rev !recs)) (string_of_n !st.m_end) fpart xmodel
   with Model_fault -> "!model-fault") in
   (* ---- oracle on the implementation's observation ---- *)
+  let sound_rest = ref false in
   let ok = (not bang) && (try
     let recs = List.map (fun r -> Array.of_list (String.split_on_char ':' r)) (String.split_on_char '/' (field ofs "m")) in
     let trues = List.filter (fun r -> r.(0) = "1") recs in
@@ -113,8 +114,18 @@ let handle kind fs obs =
     let o4 = reads_saves || finds_oracle (n_of_int (List.length trues)) complete fres first_save fsave in
     (* range.end never changes, range.start never moves backwards *)
     let o5 = field ofs "end" = field fs "rend" in
+    (* the known class sections_not_sorted (F28) is about COMPLETENESS only: positions in a section listed after one
+       with a higher address are skipped.  It excuses a failure only when everything else holds: the reports are
+       sound (ascending, inside the range, positions where exec succeeds, range.start beyond each), the captures are
+       those of the execution, and range.end is unchanged *)
+    let sound = (not positional) || reads_saves ||
+                (ascending reported
+                 && List.for_all (fun c -> z_of_n rstart <= z_of_n c && z_of_n c < z_of_n rend && ((not (in_wins wins c)) || memN c xs)) reported
+                 && advances reported after) in
+    sound_rest := sound && o2 && o5;
     o1 && o2 && o3 && o4 && o5
   with _ -> false) in
   let nontriv = (not bang) && (String.length obs > 4 && String.sub obs 0 4 = "m=1:") in
+  let cls = if ok || !sound_rest then cls else None in
   (mobs, ok, nontriv || bang, tags ^ (if nontriv then ",match" else ",nomatch"), cls)
 let () = run_driver handle
